@@ -300,36 +300,46 @@ def _subops(system, case, k, tr):
 
 
 def _model(system, state, sub):
-    """Apply one atomic step; returns (state', acceptable outcomes|None)."""
+    """Apply one atomic step; returns the alternatives
+    [(state', acceptable observed outcomes | None)]."""
     table, live = state
     kind, name, who = sub[0], sub[1], sub[2]
+
+    def without():
+        t2 = dict(table)
+        del t2[name]
+        return (t2, live)
+
     if kind == 'create':
         holder = table.get(name)
+        t2 = dict(table)
+        t2[name] = who
         if holder is None:
-            t2 = dict(table)
-            t2[name] = who
-            return (t2, live), ('ok',)
+            alts = [((t2, live), ('ok',))]
+            if who not in live:
+                # the calling owner does not exist (any more): what it
+                # creates is garbage at once.  The property speaks about live
+                # owners; a refusal is not held against the implementation.
+                alts.append((state, ('raise',)))
+            return alts
         if holder == who:
-            # RuleMgr promises success; EndpointsMgr raises EEXIST: the
-            # property is silent about it
-            return state, (('ok',) if system.kind == 'rule'
-                           else ('ok', 'raise'))
-        return state, ('raise',)
+            # RuleMgr promises success; EndpointsMgr raises EEXIST (the
+            # property is silent about that)
+            if system.kind == 'rule' and who in live:
+                return [(state, ('ok',))]
+            return [(state, ('ok', 'raise'))]
+        return [(state, ('raise',))]
     if kind == 'release':
         if table.get(name) == who:
-            t2 = dict(table)
-            del t2[name]
-            return (t2, live), None
-        return state, None
+            return [(without(), None)]
+        return [(state, None)]
     if kind == 'collect':
         holder = table.get(name)
         if holder is not None and holder not in live:
-            t2 = dict(table)
-            del t2[name]
-            return (t2, live), None
-        return state, None
+            return [(without(), None)]
+        return [(state, None)]
     if kind == 'vanish':
-        return (table, live - {who}), None
+        return [((table, live - {who}), None)]
     raise ValueError(kind)
 
 
@@ -363,27 +373,15 @@ def serial_finals(system, case, tr):
             if pos >= len(subs[k]) or other < need[k][pos]:
                 continue
             sub = subs[k][pos]
-            st2, accept = _model(system, state, sub)
-            if accept is not None and sub[3] not in accept:
-                continue
-            nxt = (i + 1, j, st2) if k == 0 else (i, j + 1, st2)
-            key = (nxt[0], nxt[1], _freeze(st2))
-            if key not in seen:
-                seen.add(key)
-                stack.append(nxt)
+            for st2, accept in _model(system, state, sub):
+                if accept is not None and sub[3] not in accept:
+                    continue
+                nxt = (i + 1, j, st2) if k == 0 else (i, j + 1, st2)
+                key = (nxt[0], nxt[1], _freeze(st2))
+                if key not in seen:
+                    seen.add(key)
+                    stack.append(nxt)
     return finals
-
-
-def _last_mutation(tr, entry, opname):
-    """(process, step) of the last successful `opname` on `entry`."""
-    best = None
-    for pname in ('p0', 'p1'):
-        for e in tr.logs[pname]:
-            if e[1] == opname and posixpath.basename(e[2]) == entry and \
-                    not (isinstance(e[3], str) and e[3].startswith('E:')):
-                if best is None or e[0] > best[1]:
-                    best = (pname, e[0])
-    return best
 
 
 _API = {
@@ -396,14 +394,16 @@ _API = {
     ('spec', 'gc'): 'endpoints.garbage_collect',
 }
 
+_READS = ('stat', 'lstat', 'readlink', 'exists', 'lexists', 'islink',
+          'listdir', 'glob')
 
-def _op_at(case, tr, pname, step):
-    k = int(pname[1])
-    log = tr.logs[pname]
-    for op, (_st, lo, hi) in zip(case['progs'][k], tr.results[pname] or []):
-        if any(e[0] == step for e in log[lo:hi]):
-            return op
-    return None
+
+def api_of(case, op):
+    if op is None:
+        return 'unknown'
+    if op[0] == 'vanish':
+        return 'owner-vanishes'
+    return _API.get((case['kind'], op[0]), op[0])
 
 
 def tok(op):
@@ -420,52 +420,118 @@ def signature(case):
         ' '.join(tok(o) for o in case['progs'][1]))
 
 
+def merged_log(case, tr):
+    """[(step, process, op of the program, syscall, entry, result)] in
+    execution order."""
+    out = []
+    for k in (0, 1):
+        pname = 'p%d' % k
+        log = tr.logs[pname]
+        for op, (_st, lo, hi) in zip(case['progs'][k],
+                                     tr.results[pname] or []):
+            for e in log[lo:hi]:
+                out.append((e[0], k, op, e[1], posixpath.basename(e[2]),
+                            e[3]))
+    out.sort(key=lambda x: x[0])
+    return out
+
+
+def audit(system, case, tr):
+    """Monitor over the merged system-call log: every successful unlink must
+    hit an entry the issuing operation is entitled to remove AT THAT INSTANT:
+    garbage collection only an entry whose owner does not exist, a release
+    only an entry held by the owner it was called for."""
+    ini = case['init']
+    table = {system.names[i]: key for i, key in ini['entries']}
+    live = {k for k in OWNERS if k not in ini['dead']}
+    log = merged_log(case, tr)
+    out = []
+    for idx, (step, k, op, call_, entry, res) in enumerate(log):
+        failed = isinstance(res, str) and res.startswith('E:')
+        if failed:
+            continue
+        if call_ == 'symlink':
+            table[entry] = op[2]
+        elif call_ == 'rmdir':
+            live.discard(_BY_NAME.get(entry, entry))
+        elif call_ == 'unlink':
+            holder = table.pop(entry, None)
+            if op[0] == 'gc':
+                ok = holder is None or holder not in live
+                clause = 'race-gc-removed-entry-of-live-owner'
+            else:
+                ok = holder is None or holder == op[2]
+                clause = 'race-release-removed-entry-of-other-owner'
+            if ok:
+                continue
+            # the decision was taken at this operation's last read of the
+            # entry; name what crossed the window
+            t_read, read = None, '?'
+            for e in reversed(log[:idx]):
+                if e[1] == k and e[2] is op and e[4] == entry and \
+                        e[3] in _READS:
+                    t_read, read = e[0], e[3]
+                    break
+                if e[1] == k and e[2] is not op:
+                    break
+            crossing = []
+            for e in log[:idx]:
+                if e[1] != k and (t_read is None or e[0] > t_read) and \
+                        e[3] in ('symlink', 'unlink', 'rmdir', 'rename') and \
+                        not (isinstance(e[5], str) and e[5].startswith('E:')):
+                    name = api_of(case, e[2])
+                    if not crossing or crossing[-1] != name:
+                        crossing.append(name)
+            out.append({
+                'clause': clause,
+                'api': '%s: %s->unlink window crossed by %s' % (
+                    api_of(case, op), read, '+'.join(crossing) or 'nothing'),
+                'detail': {'entry': entry, 'holder_at_unlink': holder,
+                           'holder_live': holder in live,
+                           'unlinked_by': 'p%d %s' % (k, tok(op)),
+                           'step': step}})
+    return out
+
+
 def judge(system, case, tr):
-    """[] or [violation dict] for one complete interleaving."""
+    """[] or violations of one complete interleaving."""
     if tr.deadlock is not None:
         return [{'clause': 'deadlock', 'api': 'scheduler',
                  'detail': {'blocked': tr.deadlock}}]
     final = tr.results['final']
     live = tr.results['live']
+    found = audit(system, case, tr)
     finals = serial_finals(system, case, tr)
-    fz = _freeze((final, live))
-    if fz in finals:
-        return []
-    detail = {'observed_final': sorted(final.items()),
+    serial_ok = _freeze((final, live)) in finals
+    common = {'observed_final': sorted(final.items()),
               'observed_live': sorted(live),
               'outcomes': {p: [r[0] for r in (tr.results[p] or [])]
                            for p in ('p0', 'p1')},
-              'serial_finals': sorted(finals)[:4],
-              'steps': [list(map(str, s)) for s in tr.steps]}
+              'explained_by_a_serial_order': serial_ok,
+              'steps': ['%s %s %s' % (s[0], s[1][0], s[1][1])
+                        for s in tr.steps]}
+    if found:
+        for v in found:
+            v['detail'].update(common)
+        return found
+    if serial_ok:
+        return []
+    common['serial_finals'] = sorted(finals)[:4]
     if not finals:
         return [{'clause': 'race-outcomes-match-no-serial-order',
-                 'api': 'outcome', 'detail': detail}]
-    # classify against the serial result closest to the observation
+                 'api': 'outcomes', 'detail': common}]
     best = min(finals, key=lambda f: len(set(f[0]) ^ set(final.items())))
     exp = dict(best[0])
-    missing = [(e, o) for e, o in exp.items() if final.get(e) != o]
-    extra = [(e, o) for e, o in final.items() if exp.get(e) != o]
-    if missing:
-        e, o = missing[0]
-        hit = _last_mutation(tr, e, 'unlink')
-        op = _op_at(case, tr, *hit) if hit else None
-        api = _API.get((case['kind'], op[0]), 'harness') if op else 'unknown'
-        if op and op[0] == 'gc':
-            clause = ('race-gc-removed-entry-of-live-owner'
-                      if o in live else 'race-gc-removed-entry')
-        elif op and op[0] in ('unlink', 'unlink_all'):
-            clause = 'race-release-removed-entry-of-other-owner'
-        else:
-            clause = 'race-entry-lost'
-        detail.update(entry=e, owner=o, removed_by=tok(op) if op else None)
-        return [{'clause': clause, 'api': api, 'detail': detail}]
-    e, o = extra[0]
-    hit = _last_mutation(tr, e, 'symlink')
-    op = _op_at(case, tr, *hit) if hit else None
-    api = _API.get((case['kind'], op[0]), 'harness') if op else 'initial'
-    detail.update(entry=e, owner=o, created_by=tok(op) if op else None)
-    return [{'clause': 'race-entry-survived-or-duplicated', 'api': api,
-             'detail': detail}]
+    missing = sorted((e, o) for e, o in exp.items() if final.get(e) != o)
+    extra = sorted((e, o) for e, o in final.items() if exp.get(e) != o)
+    common.update(missing=missing, extra=extra)
+    if extra and not missing and all(o not in live for _e, o in extra):
+        clause = 'race-gc-kept-entry-of-dead-owner'
+    elif missing:
+        clause = 'race-entry-lost'
+    else:
+        clause = 'race-final-listing-matches-no-serial-order'
+    return [{'clause': clause, 'api': 'final-listing', 'detail': common}]
 
 
 def shared_touch(tr):
